@@ -421,3 +421,253 @@ Lemma rename_former_witnesses :
   name_change [77;121;92;46;83;118;99;46;95;116;46;95;116;99;112;46;108;111;99;97;108;46]
   = [77;121;92;46;83;118;99;32;40;50;41;46;95;116;46;95;116;99;112;46;108;111;99;97;108;46].
 Proof. repeat split; vm_compute; reflexivity. Qed.
+
+(* ---- the renamed name's first label, for EVERY input ------------------------------------------------------ *)
+
+(* no unescaped dot in l (an escape may be left open at the end) *)
+Fixpoint nud (l : bytes) : bool :=
+  match l with
+  | [] => true
+  | c :: t => if c =? C_DOT then false
+              else if c =? C_BSL then match t with _ :: t' => nud t' | [] => true end
+              else nud t
+  end.
+(* no unescaped dot in l and no escape left open at its end: l is a whole label text *)
+Fixpoint closed (l : bytes) : bool :=
+  match l with
+  | [] => true
+  | c :: t => if c =? C_DOT then false
+              else if c =? C_BSL then match t with _ :: t' => closed t' | [] => false end
+              else closed t
+  end.
+
+(* induction two bytes at a time *)
+Lemma bytes_ind2 (P : list N -> Prop) :
+  P [] -> (forall c, P [c]) ->
+  (forall c n t, P t -> P (n :: t) -> P (c :: n :: t)) -> forall l : list N, P l.
+Proof.
+  intros H0 H1 H2 l. assert (H : P l /\ forall c, P (c :: l)).
+  { induction l as [|a l [IH1 IH2]]; [split; [exact H0|exact H1]|].
+    split; [apply IH2|]. intros c. apply H2; [exact IH1|apply IH2]. }
+  apply H.
+Qed.
+
+Lemma nud_first s : nud (fst (split_first_label s)) = true.
+Proof.
+  induction s as [| c | c n t IHt IHn] using bytes_ind2; try reflexivity.
+  - cbn [split_first_label]. destruct (c =? C_DOT) eqn:D; [reflexivity|].
+    destruct (c =? C_BSL) eqn:B; cbn [fst nud]; rewrite ?D, ?B; reflexivity.
+  - change (split_first_label (c :: n :: t)) with
+      (if c =? C_DOT then ([], c :: n :: t)
+       else if c =? C_BSL then let (a, r) := split_first_label t in (c :: n :: a, r)
+       else let (a, r) := split_first_label (n :: t) in (c :: a, r)).
+    destruct (c =? C_DOT) eqn:D; [reflexivity|]. destruct (c =? C_BSL) eqn:B.
+    + destruct (split_first_label t) as [a r]. cbn [fst] in *. cbn [nud]. rewrite D, B. exact IHt.
+    + destruct (split_first_label (n :: t)) as [a r]. cbn [fst] in *. cbn [nud]. rewrite D, B. exact IHn.
+Qed.
+
+Lemma nud_prefix a : forall b, nud (a ++ b) = true -> nud a = true.
+Proof.
+  induction a as [| c | c n t IHt IHn] using bytes_ind2; intros b H; try reflexivity.
+  - cbn [app nud] in *. destruct (c =? C_DOT); [discriminate|]. destruct (c =? C_BSL); reflexivity.
+  - change ((c :: n :: t) ++ b) with (c :: n :: (t ++ b)) in H.
+    cbn [nud] in H |- *. destruct (c =? C_DOT); [discriminate|]. destruct (c =? C_BSL).
+    + apply (IHt b). exact H.
+    + apply (IHn b). exact H.
+Qed.
+
+Lemma nud_firstn e l : nud l = true -> nud (firstn e l) = true.
+Proof. intros H. apply (nud_prefix _ (skipn e l)). rewrite firstn_skipn. exact H. Qed.
+
+Lemma nud_removelast l : nud l = true -> nud (removelast l) = true.
+Proof.
+  intros H. destruct l as [|a l]; [reflexivity|].
+  apply (nud_prefix _ [last (a :: l) 0]). rewrite <- app_removelast_last by discriminate. exact H.
+Qed.
+
+Lemma closed_plain s : plain s -> closed s = true.
+Proof.
+  intros [Hd Hb]. induction s as [|c t IH]; [reflexivity|].
+  inversion Hd; inversion Hb; subst. cbn [closed].
+  destruct (c =? C_DOT) eqn:D; [apply N.eqb_eq in D; contradiction|].
+  destruct (c =? C_BSL) eqn:B; [apply N.eqb_eq in B; contradiction|]. apply IH; assumption.
+Qed.
+
+(* a text without unescaped dot, followed by a non-empty plain suffix, is a whole label text *)
+Lemma closed_with_suffix a : forall suf, nud a = true -> plain suf -> suf <> [] -> closed (a ++ suf) = true.
+Proof.
+  induction a as [| c | c n t IHt IHn] using bytes_ind2; intros suf Ha Hs Hne.
+  - apply closed_plain. exact Hs.
+  - cbn [app]. cbn [nud] in Ha. cbn [closed]. destruct (c =? C_DOT); [discriminate|].
+    destruct suf as [|x suf']; [contradiction|].
+    assert (Hs' : plain suf') by (destruct Hs as [A B]; inversion A; inversion B; split; assumption).
+    destruct (c =? C_BSL); [apply closed_plain; exact Hs'|apply closed_plain; exact Hs].
+  - change ((c :: n :: t) ++ suf) with (c :: n :: (t ++ suf)).
+    cbn [nud] in Ha. cbn [closed]. destruct (c =? C_DOT); [discriminate|]. destruct (c =? C_BSL).
+    + apply IHt; assumption.
+    + apply IHn; assumption.
+Qed.
+
+(* a whole label text followed by nothing or by a dot IS the first label *)
+Lemma split_closed a : forall rest,
+  closed a = true -> starts_dot_or_empty rest -> split_first_label (a ++ rest) = (a, rest).
+Proof.
+  induction a as [| c | c n t IHt IHn] using bytes_ind2; intros rest Ha Hr.
+  - destruct Hr as [->|[t ->]]; reflexivity.
+  - cbn [closed] in Ha. destruct (c =? C_DOT) eqn:D; [discriminate|]. destruct (c =? C_BSL) eqn:B; [discriminate|].
+    cbn [app split_first_label]. rewrite D, B.
+    destruct Hr as [->|[t ->]]; cbn [split_first_label]; [reflexivity|]. rewrite N.eqb_refl. reflexivity.
+  - change ((c :: n :: t) ++ rest) with (c :: n :: (t ++ rest)).
+    change (split_first_label (c :: n :: (t ++ rest))) with
+      (if c =? C_DOT then ([], c :: n :: (t ++ rest))
+       else if c =? C_BSL then let (a, r) := split_first_label (t ++ rest) in (c :: n :: a, r)
+       else let (a, r) := split_first_label (n :: (t ++ rest)) in (c :: a, r)).
+    cbn [closed] in Ha. destruct (c =? C_DOT); [discriminate|]. destruct (c =? C_BSL).
+    + rewrite (IHt rest Ha Hr). reflexivity.
+    + change (n :: (t ++ rest)) with ((n :: t) ++ rest). rewrite (IHn rest Ha Hr). reflexivity.
+Qed.
+
+Lemma split_rest_shape s : starts_dot_or_empty (snd (split_first_label s)).
+Proof.
+  induction s as [| c | c n t IHt IHn] using bytes_ind2.
+  - left. reflexivity.
+  - cbn [split_first_label]. destruct (c =? C_DOT) eqn:D.
+    + right. apply N.eqb_eq in D. subst. exists []. reflexivity.
+    + destruct (c =? C_BSL); left; reflexivity.
+  - change (split_first_label (c :: n :: t)) with
+      (if c =? C_DOT then ([], c :: n :: t)
+       else if c =? C_BSL then let (a, r) := split_first_label t in (c :: n :: a, r)
+       else let (a, r) := split_first_label (n :: t) in (c :: a, r)).
+    destruct (c =? C_DOT) eqn:D.
+    + right. apply N.eqb_eq in D. subst. eexists. reflexivity.
+    + destruct (c =? C_BSL).
+      * destruct (split_first_label t). exact IHt.
+      * destruct (split_first_label (n :: t)). exact IHn.
+Qed.
+
+Lemma unescaped_len_le l : unescaped_len l <= N.of_nat (length l).
+Proof.
+  induction l as [| c | c n t IHt IHn] using bytes_ind2.
+  - reflexivity.
+  - cbn [unescaped_len length]. destruct (c =? C_BSL); cbn [unescaped_len]; lia.
+  - change (unescaped_len (c :: n :: t)) with
+      (if c =? C_BSL then (if (n =? C_DOT) || (n =? C_BSL) then 1 + unescaped_len t else 1 + unescaped_len (n :: t))
+       else 1 + unescaped_len (n :: t)).
+    cbn [length] in *. destruct (c =? C_BSL); [destruct ((n =? C_DOT) || (n =? C_BSL))|]; lia.
+Qed.
+
+Lemma rsplit2_sound a b s : forall p q, rsplit2 a b s = Some (p, q) -> s = p ++ a :: b :: q.
+Proof.
+  induction s as [|x t IH]; intros p q H; [discriminate|].
+  cbn [rsplit2] in H. destruct (rsplit2 a b t) as [[p' q']|].
+  - inversion H; subst. rewrite (IH p' q eq_refl). reflexivity.
+  - destruct t as [|y t']; [discriminate|]. destruct ((x =? a) && (y =? b)) eqn:E; [|discriminate].
+    apply andb_true_iff in E as [E1 E2]. apply N.eqb_eq in E1, E2. inversion H; subst. reflexivity.
+Qed.
+
+Lemma rsplit1_sound a s : forall p q, rsplit1 a s = Some (p, q) -> s = p ++ a :: q.
+Proof.
+  induction s as [|x t IH]; intros p q H; [discriminate|].
+  cbn [rsplit1] in H. destruct (rsplit1 a t) as [[p' q']|].
+  - inversion H; subst. rewrite (IH p' q eq_refl). reflexivity.
+  - destruct (x =? a) eqn:E; [|discriminate]. apply N.eqb_eq in E. inversion H; subst. reflexivity.
+Qed.
+
+Lemma label_with_suffix_closed base suf :
+  nud base = true -> plain suf -> suf <> [] -> closed (label_with_suffix base suf) = true.
+Proof.
+  intros Hb Hs Hne. unfold label_with_suffix. cbv zeta.
+  apply closed_with_suffix; [|assumption|assumption].
+  match goal with |- nud (if ?c then _ else _) = true => destruct c end;
+    [apply nud_removelast|]; apply nud_firstn; exact Hb.
+Qed.
+
+Lemma digits_plain ds : all_digits ds -> plain ds.
+Proof. intros H. split; apply (digits_no_byte _ ds H); unfold C_DOT, C_BSL; lia. Qed.
+
+Lemma plain_app a b : plain a -> plain b -> plain (a ++ b).
+Proof. intros [A1 A2] [B1 B2]. split; apply Forall_app; split; assumption. Qed.
+
+Lemma plain_of_list l : forallb (fun c => negb (c =? C_DOT) && negb (c =? C_BSL)) l = true -> plain l.
+Proof.
+  induction l as [|c t IH]; intros H; [split; constructor|].
+  cbn [forallb] in H. apply andb_true_iff in H as [H1 H2]. apply andb_true_iff in H1 as [Hd Hb].
+  apply negb_true_iff in Hd, Hb. apply N.eqb_neq in Hd, Hb.
+  destruct (IH H2) as [A B]. split; constructor; assumption.
+Qed.
+
+(* what a rename yields is (label text) ++ rest with the label text whole and at most 63 bytes *)
+Lemma rename_shape_ok s nf :
+  closed nf = true -> (length nf <= 63)%nat ->
+  rename_keeps_rest s (nf ++ snd (split_first_label s)) = true /\
+  first_label_encodable (nf ++ snd (split_first_label s)) = true.
+Proof.
+  intros Hc Hl. unfold rename_keeps_rest, first_label_encodable.
+  rewrite (split_closed nf _ Hc (split_rest_shape s)). cbn [fst snd]. split.
+  - apply beq_refl.
+  - apply N.ltb_lt. pose proof (unescaped_len_le nf). lia.
+Qed.
+
+Theorem name_change_encodable s :
+  rename_keeps_rest s (name_change s) = true /\ first_label_encodable (name_change s) = true.
+Proof.
+  pose proof (nud_first s) as Hf. pose proof (split_rest_shape s) as Hr.
+  unfold name_change. destruct (split_first_label s) as [first rest] eqn:E.
+  replace rest with (snd (split_first_label s)) by (rewrite E; reflexivity).
+  cbn [fst] in Hf.
+  assert (P2 : plain [C_SP; C_LP; 50; C_RP]) by (apply plain_of_list; reflexivity).
+  assert (D : rename_keeps_rest s (label_with_suffix first [C_SP; C_LP; 50; C_RP] ++ snd (split_first_label s)) = true /\
+              first_label_encodable (label_with_suffix first [C_SP; C_LP; 50; C_RP] ++ snd (split_first_label s)) = true).
+  { apply rename_shape_ok.
+    - apply label_with_suffix_closed; [exact Hf|exact P2|discriminate].
+    - apply label_with_suffix_len. cbn [length]. lia. }
+  destruct (rsplit2 C_SP C_LP first) as [[base q]|] eqn:R; [|exact D].
+  destruct (find1 C_RP q) as [[num [|a t]]|]; try exact D.
+  destruct (parse_u32 num) as [n|]; [|exact D].
+  destruct (name_suffix_can_increment n) eqn:CI; [|exact D].
+  unfold name_suffix_can_increment in CI. apply N.leb_le in CI.
+  destruct (dec_spec (n + name_suffix_step)) as (ds & Eds & Hd & Hne & _); [lia|].
+  apply rename_shape_ok.
+  - apply label_with_suffix_closed.
+    + apply rsplit2_sound in R. subst first. apply (nud_prefix _ _ Hf).
+    + rewrite Eds. change ([C_SP; C_LP] ++ ds ++ [C_RP]) with ([C_SP; C_LP] ++ (ds ++ [C_RP])).
+      apply plain_app; [apply plain_of_list; reflexivity|].
+      apply plain_app; [apply digits_plain; exact Hd|apply plain_of_list; reflexivity].
+    + discriminate.
+  - apply label_with_suffix_len.
+    pose proof (dec_length (n + name_suffix_step)). cbn [app length]. rewrite app_length. cbn [length]. lia.
+Qed.
+
+Theorem hostname_change_encodable s :
+  rename_keeps_rest s (hostname_change s) = true /\ first_label_encodable (hostname_change s) = true.
+Proof.
+  pose proof (nud_first s) as Hf.
+  unfold hostname_change. destruct (split_first_label s) as [first rest] eqn:E.
+  replace rest with (snd (split_first_label s)) by (rewrite E; reflexivity).
+  cbn [fst] in Hf.
+  assert (D : rename_keeps_rest s (label_with_suffix first [C_HY; 50] ++ snd (split_first_label s)) = true /\
+              first_label_encodable (label_with_suffix first [C_HY; 50] ++ snd (split_first_label s)) = true).
+  { apply rename_shape_ok.
+    - apply label_with_suffix_closed; [exact Hf|apply plain_of_list; reflexivity|discriminate].
+    - apply label_with_suffix_len. cbn [length]. lia. }
+  destruct (rsplit1 C_HY first) as [[base num]|] eqn:R; [|exact D].
+  destruct (parse_u32 num) as [n|]; [|exact D].
+  destruct (host_suffix_can_increment n) eqn:CI; [|exact D].
+  unfold host_suffix_can_increment in CI. apply N.leb_le in CI.
+  destruct (dec_spec (n + host_suffix_step)) as (ds & Eds & Hd & Hne & _); [lia|].
+  apply rename_shape_ok.
+  - apply label_with_suffix_closed.
+    + apply rsplit1_sound in R. subst first. apply (nud_prefix _ _ Hf).
+    + rewrite Eds. apply plain_app; [apply plain_of_list; reflexivity|apply digits_plain; exact Hd].
+    + discriminate.
+  - apply label_with_suffix_len.
+    pose proof (dec_length (n + host_suffix_step)). cbn [app length]. lia.
+Qed.
+
+(* STILL ENCODABLE, every input: only the first label changes and it fits a DNS label *)
+Theorem rename_encodable_all s :
+  rename_keeps_rest s (name_change s) = true /\ first_label_encodable (name_change s) = true /\
+  rename_keeps_rest s (hostname_change s) = true /\ first_label_encodable (hostname_change s) = true.
+Proof.
+  destruct (name_change_encodable s), (hostname_change_encodable s). auto.
+Qed.
